@@ -118,6 +118,6 @@ Definition depuncture_lsf (inp prev : list Z) := depuncture P1 488 inp prev.    
 Definition depuncture_stream (inp prev : list Z) := depuncture P2 296 inp prev.   (* IN = 272 *)
 Definition depuncture_bert (inp prev : list Z) := depuncture P2 402 inp prev.     (* IN = 368 *)
 Definition depuncture_packet (inp prev : list Z) := depuncture P3 420 inp prev.   (* IN = 368 *)
-(** M17Modulator: puncture_bytes(encoded[61], punctured[46], P1), puncture_bytes(encoded[41], punctured[34], P2) *)
+(** M17Modulator: puncture_bytes(encoded[61], punctured[46], P1), puncture_bytes(encoded[37], punctured[34], P2) *)
 Definition puncture_bytes_lsf (inp prev : list N) := puncture_bytes P1 46 inp prev.     (* IN = 61 bytes *)
-Definition puncture_bytes_stream (inp prev : list N) := puncture_bytes P2 34 inp prev.  (* IN = 41 bytes *)
+Definition puncture_bytes_stream (inp prev : list N) := puncture_bytes P2 34 inp prev.  (* IN = 37 bytes *)
